@@ -98,6 +98,9 @@ func ApplyEdit(g G, p *Project, d *verifsim.Disk, inPlace bool) string {
 			}
 		} else {
 			imp.Style = ImpDefault
+			if p.Mods[t].Kind == "json" {
+				imp.Style = []int{ImpDefault, ImpNamed, ImpStar}[g.n(3)]
+			}
 			if p.Mods[t].Kind == "css" {
 				imp.Style = ImpSideEffect
 			}
@@ -317,7 +320,7 @@ func ApplyEdit(g G, p *Project, d *verifsim.Disk, inPlace bool) string {
 		desc += fmt.Sprintf(" %s broken=%v", m.Path, m.Broken)
 	case EdFeature:
 		m := live(true)
-		m.Feat ^= 1 << uint(g.n(10))
+		m.Feat ^= 1 << uint(g.n(11))
 		desc += fmt.Sprintf(" %s feat=%x", m.Path, m.Feat)
 	case EdStyleFlip:
 		m := live(true)
@@ -330,6 +333,9 @@ func ApplyEdit(g G, p *Project, d *verifsim.Disk, inPlace bool) string {
 			if im.Style == ImpReexportStar && p.Mods[im.Target].Kind == "cjs" {
 				im.Style = ImpNamed
 			}
+		}
+		if im.Target >= 0 && p.Mods[im.Target].Kind == "json" && m.Kind != "cjs" {
+			im.Style = []int{ImpDefault, ImpNamed, ImpStar}[g.n(3)]
 		}
 		im.Spec = []string{"", "ext", "alias"}[g.n(3)]
 		desc += fmt.Sprintf(" %s import of %d -> style %d spec %q", m.Path, im.Target, im.Style, im.Spec)
